@@ -161,6 +161,31 @@ def run(tier):
     c['int_ids'] = False
     c['dup_cells'] = i % 3 == 2
     cases.append(c)
+  # geos whose required impacts are exactly tied (series that differ by a constant) competing for the last n_geos_max slot:
+  # which one survives must not depend on their names
+  for j in range(6 if tier == 'quick' else 60):
+    c = search.gen_case(ck.seed * 100003 + 12 * 1009 + 5000 + j, tier, max_geos=5)
+    rng = random.Random(ck.seed + 5000 + j)
+    nd = len(c['rows'][0])
+    pat = [float((7 * t * (j + 3)) % 11) - 5.0 for t in range(nd)]
+    n = rng.randint(4, 6)
+    levels = rng.sample([40.0, 55.0, 70.0, 90.0, 120.0, 160.0, 210.0], n)
+    rows = []
+    for g in range(n):
+      if g < 3:
+        rows.append([levels[g] + p for p in pat])                       # same pattern, different level: tied impact
+      else:
+        rows.append([round((levels[g] + 3 * p + rng.gauss(0, 2)) * 8) / 8 for p in pat])
+    c['rows'] = rows
+    c['elig'] = {str(g + 1): rng.choice(['ctx', 'ctx', 'cx', 'tx', 'ct']) for g in range(n)}
+    c['par'] = {'n_test': 3, 'iroas': 1.0, 'n_designs': 3, 'n_pretest_max': 90, 'n_geos_max': rng.choice([2, 3, n - 1])}
+    c['want_share'] = c['want_budget'] = False
+    c['shuffle'] = False
+    c['int_ids'] = False
+    c['dup_cells'] = False
+    c['history'] = None
+    c.pop('zero_sum_geo', None)
+    cases.append(c)
   res = common.pmap(_one, cases, chunksize=2)
   pairs = 0
   skipped = {'ties': 0, 'equal-means': 0}
@@ -176,7 +201,7 @@ def run(tier):
         ck.fail('presentation-dependence', f, {'case': searchfam.slim(c)})
       break
   ck.sample({'seed': cases[0]['seed'], 'transformations': ['shuffle rows + shift dates', 'rename geos', 'scale by 2^k', 'integer IDs']})
-  ck.cov['rule'] = ('generated search cases (<= 5 geos; in one third some (geo, date) cells are reported in two rows); for both searches the designs on the original input are compared with '
+  ck.cov['rule'] = ('generated search cases (<= 5 geos; in one third some (geo, date) cells are reported in two rows; plus cases with exactly tied per-geo required impacts and a binding n_geos_max); for both searches the designs on the original input are compared with '
                     'the designs on four transformed inputs: rows shuffled + all dates shifted + eligibility rows shuffled; geos '
                     'renamed injectively (eligibility alike, results mapped back); integer instead of string IDs; responses and '
                     'budget range multiplied by 2^k, k in -12..12 (groups, tests, correlations bit-equal, required impact scaled '
